@@ -228,8 +228,21 @@ def _guarded_by_truthiness(fnode, node, field) -> bool:
             if not isinstance(stmts, list):
                 continue
             for i, st in enumerate(stmts):
-                if isinstance(st, ast.If) and isinstance(st.test, ast.UnaryOp) and isinstance(st.test.op, ast.Not) \
-                        and _meta_field(st.test.operand) == field and st.body \
+                def _none_test(t):
+                    # `not <field>`, `<field> is None`, `<field> is None or len(<field>) == 0` (any `or` that has the None test first)
+                    if isinstance(t, ast.UnaryOp) and isinstance(t.op, ast.Not) and _meta_field(t.operand) == field:
+                        return True
+                    def _is_none(x):
+                        return isinstance(x, ast.Compare) and len(x.ops) == 1 and isinstance(x.ops[0], (ast.Is, ast.Eq)) and _meta_field(x.left) == field \
+                            and isinstance(x.comparators[0], ast.Constant) and x.comparators[0].value is None
+
+                    def _is_empty(x):
+                        return isinstance(x, ast.Compare) and len(x.ops) == 1 and isinstance(x.ops[0], ast.Eq) and isinstance(x.left, ast.Call) \
+                            and isinstance(x.left.func, ast.Name) and x.left.func.id == "len" and x.left.args and _meta_field(x.left.args[0]) == field \
+                            and isinstance(x.comparators[0], ast.Constant) and x.comparators[0].value == 0
+                    # the None test alone is not the same guard: an empty list would pass it and nothing below would refuse the item
+                    return isinstance(t, ast.BoolOp) and isinstance(t.op, ast.Or) and len(t.values) == 2 and _is_none(t.values[0]) and _is_empty(t.values[1])
+                if isinstance(st, ast.If) and _none_test(st.test) and st.body \
                         and isinstance(st.body[-1], (ast.Raise, ast.Return, ast.Continue)):
                     if any(x is node for later in stmts[i + 1:] for x in ast.walk(later)):
                         return True
